@@ -178,6 +178,7 @@ func runC09(c *Ctx) {
 	c09FileLock(c, pkStore)
 	c09EntryKey(c)
 	c15PutAllGiven(c)
+	c09CtxErrRecorded(c)
 	{
 		op := append([]*packages.Package{}, pkgs...)
 		if q := p.Pkg("private/bufpkg/bufmodule"); q != nil {
